@@ -209,19 +209,21 @@ Qed.
 Lemma emit_front_ok st bytes ref e st' :
   st_ok st -> emit_front st bytes = Some (ref, e, st') -> small st' ->
   ref = e_start st - lenZ bytes /\ st' = set_emit_front st ref bytes /\ st_ok st' /\
-  e = {| em_off := ref; em_bytes := bytes |}.
+  e = {| em_off := ref; em_bytes := bytes |} /\ ref < e_start st.
 Proof.
   intros Hok E Hsm. unfold emit_front in E.
   destruct (((16 <? lenZ bytes) && (U32_MAX <? lenZ bytes - 16)) || (e_start st <=? s32 (e_start st - lenZ bytes))) eqn:C;
     [discriminate|].
+  apply orb_false_iff in C. destruct C as [_ C2].
   injection E as <- <- <-.
   destruct Hok as [Hs [He [Hlo Hhi]]].
   unfold small in Hsm. cbn [set_emit_front front back] in Hsm. rewrite lenZ_app in Hsm.
   pose proof (lenZ_nonneg bytes). pose proof (lenZ_nonneg (front st)). pose proof (lenZ_nonneg (back st)).
   assert (Hr : s32 (e_start st - lenZ bytes) = e_start st - lenZ bytes).
-  { clear C. unfold s32, u32. cbv zeta.
+  { clear C2. unfold s32, u32. cbv zeta.
     destruct ((e_start st - lenZ bytes) mod 4294967296 <? 2147483648) eqn:D; lia. }
-  rewrite Hr. repeat split; try reflexivity; cbn [set_emit_front e_start e_end front back].
+  rewrite Hr in *. split; [reflexivity|]. split; [reflexivity|]. split; [|split; [reflexivity|lia]].
+  repeat split; cbn [set_emit_front e_start e_end front back].
   - rewrite lenZ_app. lia.
   - exact He.
   - lia.
